@@ -679,3 +679,34 @@ Proof.
   cbn [o_kind o_fut o_has_pub]. destruct kd; cbn [fst finish_table objs]; try exact H1.
   destruct ft; cbn [fst finish_table objs set_obj]; try exact H1. rewrite nth_oset_other by congruence. exact H1.
 Qed.
+
+(* ---------- C12: raising handlers and frames for unknown streams ---------- *)
+Theorem raising_handler_contained e sid ign md d :
+  tget (table e) sid = None -> cache_get (cachek e) sid = None ->
+  recv_frame e (FRequestResponse sid ign false md d) ORaise true =
+    (e, [XHandler HResponse md d; XEnq (f_error sid EC_APPLICATION_ERROR [])]).
+Proof.
+  intros Ht Hc. unfold recv_frame. change (is_fragmentable (FRequestResponse sid ign false md d)) with true. cbv iota.
+  unfold cache_append. cbn [ffollows fsid]. rewrite Hc.
+  assert ({| sc := sc e; table := table e; objs := objs e; cachek := cachek e |} = e) as -> by (destruct e; reflexivity).
+  unfold recv_dispatch. cbn [fsid default_outcome]. change (is_request_type (FRequestResponse sid ign false md d)) with true.
+  rewrite orb_true_r. rewrite Ht. reflexivity.
+Qed.
+
+Theorem unknown_stream_dropped e f o u : is_fragmentable f = false -> is_request_type f = false ->
+  fsid f <> CONNECTION_STREAM_ID -> tget (table e) (fsid f) = None -> recv_frame e f o u = (e, []).
+Proof.
+  intros Hf Hr Hs Ht. unfold recv_frame. rewrite Hf. unfold recv_dispatch. rewrite Hr, orb_false_r.
+  destruct (N.eqb_spec (fsid f) CONNECTION_STREAM_ID); [congruence|]. rewrite Ht. reflexivity.
+Qed.
+
+Theorem fnf_leaves_nothing u e md d sid e1 : alloc e = (Some sid, e1) -> gone (fst (ep_step u e (LFnf md d))) sid.
+Proof. intro H. cbn [ep_step]. rewrite H. cbn [fst]. apply finish_gone. Qed.
+
+Theorem end_rr_cancel_gone e oid o u r : nth_error (objs e) oid = Some o -> o_kind o = KRRReq -> o_fut o = FCancelled ->
+  o_responded o = false -> gone (fst (ep_step u e (LFutCb oid r))) (o_sid o).
+Proof. intros Ho Hk Hf Hr. rewrite (end_rr_cancel e oid o u r Ho Hk Hf Hr). apply finish_gone. Qed.
+
+Theorem cancel_rs_requester_gone u e oid o : nth_error (objs e) oid = Some o -> o_kind o = KRSReq ->
+  gone (fst (ep_step u e (LCancel oid))) (o_sid o).
+Proof. intros Ho Hk. rewrite (cancel_rs_requester u e oid o Ho Hk). apply finish_gone. Qed.
